@@ -1,7 +1,7 @@
 (* Runs C16 protocol requests on the model extracted from Coq (c16x.ml).
    input : P init=<F> script=<edits>          (tokens as printed by harness/c16_regen.c)
    output: dup=<F> work=<F> final=<F> closed=<0|1>
-   F = insns/origs/vars/ovn/lrefs ; insn = id.L.payload.r,r ; lref = lab,lab2,orig,orig2 (-1 = none) *)
+   F = insns/origs/vars/ovn/lrefs/gvars/regtab ; regtab = name.number by number ; insn = id.L.payload.r,r ; lref = lab,lab2,orig,orig2 (-1 = none) *)
 open C16x
 
 let rec nat_of_int n = if n <= 0 then O else S (nat_of_int (n - 1))
@@ -57,11 +57,15 @@ let parse_lref (s : string) : lref =
 
 let parse_func (s : string) : func =
   match String.split_on_char '/' s with
-  | [ins; orig; vars; ovn; lrefs] ->
+  | [ins; orig; vars; ovn; lrefs; gvs; tab] ->
     let il = List.map parse_insn (split ':' ins) in
     let vs = List.map z_of_hex (split ',' vars) in
+    let entry e = match String.split_on_char '.' e with
+      | [nm; n] -> (z_of_hex nm, nat_of_int (int_of_string n))
+      | _ -> failwith ("bad regtab entry: " ^ e) in
     { insns = il; original_insns = List.map parse_insn (split ':' orig); vars = vs;
-      original_vars_num = nat_of_int (int_of_string ovn); regtab = vs;
+      original_vars_num = nat_of_int (int_of_string ovn);
+      gvars = List.map z_of_hex (split ',' gvs); regtab = List.map entry (split ',' tab);
       lrefs = List.map parse_lref (split ':' lrefs); next_id = nat_of_int (List.length il);
       machine_code = None; call_addr = None; faddr = Z0 }
   | _ -> failwith ("bad func: " ^ s)
@@ -89,11 +93,14 @@ let show_insns l =
 let show_opt = function None -> "-1" | Some n -> string_of_int (int_of_nat n)
 
 let show_func (f : func) =
-  Printf.sprintf "%s/%s/%s/%d/%s" (show_insns f.insns) (show_insns f.original_insns)
+  let tab = List.sort (fun (_, a) (_, b) -> compare a b) (List.map (fun (nm, n) -> (nm, int_of_nat n)) f.regtab) in
+  Printf.sprintf "%s/%s/%s/%d/%s/%s/%s" (show_insns f.insns) (show_insns f.original_insns)
     (String.concat "," (List.map hex_of_z f.vars)) (int_of_nat f.original_vars_num)
     (String.concat ":" (List.map (fun l ->
        Printf.sprintf "%s,%s,%s,%s" (string_of_int (int_of_nat l.l_label)) (show_opt l.l_label2)
          (show_opt l.l_orig) (match l.l_orig2 with None -> "-1" | Some o -> show_opt o)) f.lrefs))
+    (String.concat "," (List.map hex_of_z f.gvars))
+    (String.concat "," (List.map (fun (nm, n) -> Printf.sprintf "%s.%d" (hex_of_z nm) n) tab))
 
 let field line key =
   let k = key ^ "=" in
